@@ -28,7 +28,7 @@ Init == /\ ent = [r \in Reps |-> R!Absent]
         /\ hist = <<>>
 
 MkStmt(kind, cs, t) ==
-  [kind |-> kind, key |-> "k", wt |-> t,
+  [kind |-> kind, key |-> "k", wt |-> t, n |-> 0,
    cols |-> IF kind = "del" THEN [c \in {} |-> "x"]
             ELSE [c \in (IF kind = "ins" THEN Cols ELSE cs) |-> IF c \in cs THEN c \o ToString(t) ELSE R!NullV]]
 
